@@ -25,6 +25,13 @@ NAME_PATHS = re.compile(r"(table_name|schema|dataset|name|primary_key\[\]|column
                         r"type_name|domain_name|schema_name|database_name|tablespace_name)$")
 
 
+SPECIAL_WORDS = ["asc", "desc", "Desc", "Asc", "first", "last", "nulls", "temporary", "max", "to", "only", "identity", "stored", "always", "time", "zone",
+                 "value", "next", "cast", "true", "false", "character", "charset", "unsigned", "date", "timestamp", "interval", "number", "text",
+                 "external", "global", "transient", "period", "system_time", "buckets", "sorted", "fields", "lines", "organization", "distkey",
+                 "sortkey", "diststyle", "inputformat", "delimited", "begin", "end", "select", "from", "where", "and", "commit", "collateral",
+                 "Collated", "auto_increment_step", "AutoIncrementSeed", "autoincrement_x"]
+
+
 def kw_form(draw_int, k):
     return [k, k.lower(), k.capitalize()][draw_int % 3]
 
@@ -32,7 +39,14 @@ def kw_form(draw_int, k):
 @st.composite
 def name(draw, pool="col", allow_kw=True):
     """one identifier; pool: 'col' (all keywords) | 'obj' (all but IF) | 'plainish' (no keyword-shaped names)"""
-    sty = draw(st.sampled_from(["plain", "mixed", "dq", "dqsp", "bt", "br", "kw", "kw", "kwq", "odd"]))
+    sty = draw(st.sampled_from(["plain", "mixed", "dq", "dqsp", "bt", "br", "kw", "kw", "kwq", "odd", "special", "kwaffix"]))
+    if sty == "special":
+        # words that steer a production or the pre-processor by value but are no grammar keywords: plain identifiers
+        return draw(st.sampled_from(SPECIAL_WORDS))
+    if sty == "kwaffix":
+        # identifiers that merely start / end with a keyword (collateral, my_default, Typeal ...)
+        k = draw(st.sampled_from([x for x in KEYWORDS if x != "ARRAY"]))
+        return draw(st.sampled_from([k + "x", k.lower() + "_id", "x" + k.lower(), k.capitalize() + "al", "my_" + k, k.lower() + "eral_value"]))
     if sty == "odd":
         # delimited names whose inner text is not identifier-shaped: leading digit, '$', '-', '.' (the latter only in double quotes)
         w = draw(gen.plain_ident(min_len=2, max_len=6))
@@ -242,6 +256,15 @@ class C06(Prop):
                         if pos == "schema" and q == 2:
                             continue  # K17
                         yield {"src": "sweep", "pos": pos, "kw": kw_form(f, k), "q": q, "norm": (ki + f + q) % 2 == 0}
+        # the same sweep for the non-keyword special words and for realistic names that start / end with a keyword
+        words = [w for w in SPECIAL_WORDS + gen.REALISTIC_NAMES]
+        for pi, pos in enumerate(sorted(SWEEP)):
+            for wi, w in enumerate(words):
+                if pos == "schema" and w == "authorization":
+                    continue
+                if tier == "quick" and (wi + pi) % 3 != 0:
+                    continue
+                yield {"src": "sweep", "pos": pos, "kw": w, "q": (wi + pi) % 4 if not (pos == "schema" and (wi + pi) % 4 == 2) else 0, "norm": (wi + pi) % 2 == 0}
 
     # ---- (b)
     def eval_sweep(self, case):
